@@ -51,6 +51,29 @@ CHECKS = {
         note=TB + "Reading is an oracle (the exception class observed per file is given to the model); argparse is not modelled; mesh "
              "domain equality of generated pairs is by construction (C02/C03 cover the mesh ladder).",
         technique="Coq proof of the CLI decision model + model/implementation correspondence on exit codes", ref="7 (C04)"),
+    "C12": dict(
+        text="Theorems over all path lists and option tables: each class of the categorisation has its defining condition, the six "
+             "classes partition the files of both trees (every file exactly once), exit 0 iff every compared file passes and "
+             "one-sided files occur only under the ignore flags, an exception in a file comparison is a failure, exactly one "
+             "reported suite per path. Tied to `fieldcompare dir` by differential runs on generated tree pairs; observables: exit "
+             "code, junit suites per path with their class, the filtered-orphans count; metamorphic file-mode runs per path.",
+        note=TB + "os.walk, fnmatch and io.is_supported are oracles (tables handed to the model); symlinks/permissions not covered.",
+        technique="Coq proof of the directory-mode model + model/implementation correspondence", ref="7 (C12)"),
+    "C15": dict(
+        text="Theorems: iterating a sequence source yields every step once and in order from every cursor position and repeatably; "
+             "the compared pairs are exactly the common prefix, in order; the verdict is a pass iff every compared step passes and "
+             "lengths agree or missing steps are ignored; --force still fails on a length mismatch; sequence vs single file is "
+             "non-zero; merged statuses are sticky. Tied to the CLI by differential runs on .pvd sequences (deviating step at every "
+             "position, all option combinations) and to FieldDataSequence by repeated / partial iteration.",
+        note=TB + "Per-step comparison results are abstract (passed / failed / domain-failed); XDMF sources are not exercised in the quick tier.",
+        technique="Coq proof of the sequence model + model/implementation correspondence", ref="7 (C15)"),
+    "C20": dict(
+        text="Theorems: report counts equal the counts of its test cases; one case per reported comparison plus at most one case "
+             "carrying the verdict of a suite that failed as a whole; failure/error element iff non-zero exit code (for all suites "
+             "the CLI can build); skipped entries are exactly filtered / ignored-missing ones. Tied to --junit-xml output (parsed "
+             "with an independent XML parser) of every C04, C15 and C12 scenario.",
+        note=TB + "A report that is not written because of an earlier exception is recorded, not required.",
+        technique="Coq proof of the JUnit model + model/implementation correspondence", ref="7 (C20)"),
 }
 
 ALL = [f"C{i:02d}" for i in range(1, 21)]
